@@ -91,6 +91,15 @@ def gen_simple_grid(rng, tier):
         g["fill_value"] = {a: float(rng.randint(-3, 3)) for a in names}
     elif r < 0.5:
         g["fill_value"] = float(rng.randint(-3, 3))
+    if rng.random() < 0.2:
+        # explicit default shifts (what `to=None` means) for some positions
+        ds_ = {}
+        for a, ax in axes.items():
+            others = [p for p in ax["pos"] if p != "center"]
+            if others and rng.random() < 0.7:
+                ds_[a] = {"center": rng.choice(others)}
+        if ds_:
+            g["default_shifts"] = ds_
     return {"axes": axes, "extra": extra, "grid": g, "vars": {}}
 
 
@@ -800,7 +809,10 @@ def exempt_condition(spec):
         if tp is None:
             from xgcm.axis import FALLBACK_SHIFTS
 
-            tp = next((p for p in FALLBACK_SHIFTS[fp] if p in ax["pos"]), None)
+            # `to` not given: the Grid's default shift for this position (explicit, else the fallback order)
+            tp = ((gs.get("grid") or {}).get("default_shifts") or {}).get(a, {}).get(fp)
+            if tp is None:
+                tp = next((p for p in FALLBACK_SHIFTS[fp] if p in ax["pos"]), None)
         if chunked(fd[0]) and (fp in ("inner", "outer") or tp in ("inner", "outer")):
             return True
     return False
